@@ -564,4 +564,5 @@ Definition wf_b (c : cat) : bool :=
   forallb (refs_ok_b c) (pols c) &&
   forallb (default_ok_b c) (dbs c) &&
   forallb (fun e => Z.of_nat (length (snd e)) =? ptnum c) (ptview c) &&
-  forallb (fun x => 0 <=? x) [max_sg c; max_sh c; max_ig c; max_ix c; max_mst c; max_node c; ptnum c].
+  forallb (fun x => 0 <=? x) [max_sg c; max_sh c; max_ig c; max_ix c; max_mst c; max_node c; ptnum c] &&
+  forallb (fun p => 0 <? rp_sgdur p) (pols c).
